@@ -37,13 +37,13 @@ Theorem C03_layout_checker_sound :
    forall (ph : Z) (d : doc) (items : list item), layout_b ph d items = true -> Layout ph d items.
 Proof. exact layout_b_sound. Qed.
 
-(* _del_tokens, both branches: cells A ++ M ++ B become del_res A M B *)
+(* _del_tokens, both branches: cells A ++ M ++ B become del_res A M B post *)
 Theorem C03_del_tokens :
    forall (ph : Z) (pre : list tok) (pht : tok) (A M B : list cell) (post : list tok),
        WF ph pre pht (A ++ M ++ B) post ->
        M <> [] ->
        del_tokens ph (lay pre pht (A ++ M ++ B) post) (map item_of (A ++ M ++ B)) (zlen A) (zlen A + zlen M) =
-       (lay pre pht (del_res A M B) post, Ok tt).
+       (lay pre pht (del_res A M B post) post, Ok tt).
 Proof. exact del_layout. Qed.
 
 (* _insert_tokens, all three modes, any number of values: cells A ++ B become ins_res A B *)
@@ -260,8 +260,8 @@ Theorem C03_pop :
          r = c_body c /\
          dl = [] /\
          (zlen A = i \/ zlen A = i + zlen cs) /\
-         s' = {| s_doc := lay pre pht (del_res A [c] B) post; s_items := map item_of (del_res A [c] B) |} /\
-         WF ph pre pht (del_res A [c] B) post /\ Edit cs (del_res A [c] B) [c] [].
+         s' = {| s_doc := lay pre pht (del_res A [c] B post) post; s_items := map item_of (del_res A [c] B post) |} /\
+         WF ph pre pht (del_res A [c] B post) post /\ Edit cs (del_res A [c] B post) [c] [].
 Proof. exact pop_layout. Qed.
 
 (* clear() *)
